@@ -36,11 +36,11 @@ def build(case):
         def set_catch_type(self, t):
             self.catch_type = t
 
-    n, entry, edges, catch = case
+    n, entry, edges, catch = case[:4]
     g = Graph()
     nodes = [N("n%d" % i) for i in range(n)]
-    for x in nodes:
-        g.add_node(x)
+    for i in (case[4] if len(case) > 4 and case[4] else range(n)):      # the order in which the nodes are added to the graph
+        g.add_node(nodes[i])
     for i, l in enumerate(edges):
         for j in l:
             g.add_edge(nodes[i], nodes[j])
@@ -226,6 +226,12 @@ def impl_history(case):
     for op in ops:
         if op[0] == "rpo":
             g.compute_rpo()
+        elif op[0] == "walk":
+            it = g.post_order()
+            for _ in range(op[1]):
+                next(it, None)
+            (it.close if op[1] % 2 else (lambda: None))()
+            del it
         elif op[0] == "rm":
             g.remove_node(nodes[op[1]])
         elif op[0] == "node":
@@ -244,6 +250,9 @@ def gen_history(rng, tier, ctx):
     cases = []
     # r->a->b->d, r->c->d, a->c ; number, remove b, number again
     cases.append((5, 0, [[1, 3], [2, 3], [4], [4], []], [[], [], [], [], []], [("rpo",), ("rm", 2), ("rpo",)]))
+    cases.append((5, 0, [[1, 3], [2, 3], [4], [4], []], [[], [], [], [], []], [("walk", 1)]))
+    cases.append((1, 0, [[]], [[]], []))
+    cases.append((3, 0, [[1], [2], []], [[], [], []], [("rpo",), ("rm", 1), ("rm", 2)]))
     total = 1500 if tier == "thorough" else 250
     while len(cases) < total:
         n = rng.choice((3, 4, 5, 6, 8, 12, 20))
@@ -254,8 +263,10 @@ def gen_history(rng, tier, ctx):
         for _ in range(rng.randint(1, 8)):
             (fg, alive) = final_graph((n, 0, edges, catch, ops))
             r = rng.random()
-            if r < 0.35:
+            if r < 0.28:
                 op = ("rpo",)
+            elif r < 0.35:
+                op = ("walk", rng.randint(1, 3))         # a post-order walk that is started and given up after a few nodes
             elif r < 0.65 and len(alive) > 2:
                 x = rng.choice([a for a in alive if a != 0])
                 op = ("rm", x)
@@ -286,6 +297,7 @@ def stats_history(cases, results):
         ops = c[4]
         d["ops"] += len(ops)
         d["rpo_between"] += sum(1 for o in ops if o[0] == "rpo")
+        d["abandoned_walks"] = d.get("abandoned_walks", 0) + sum(1 for o in ops if o[0] == "walk")
         d["removals"] += sum(1 for o in ops if o[0] == "rm")
         seen = False
         for o in ops:
